@@ -248,6 +248,7 @@ var transparentFuncs = map[string]bool{
 	"mvdan.cc/sh/v3/interp.NewExitStatus": true,
 	"(mvdan.cc/sh/v3/interp.exitStatus).Error": true,
 	"strings.Title": false,
+	"strings.NewReader": true,
 	"bytes.IndexByte": false,
 	"(*strings.Builder).String": false,
 	"path/filepath.Join": false,
@@ -562,6 +563,7 @@ func (e *Engine) switchTo(st *State, tid int) {
 	t := st.threads[tid]
 	t.Wait = nil
 	t.WaitDesc = ""
+	t.Sleeping = false
 	st.decisions = st.decisions[:0]
 	st.decPos = 0
 	panic(reschedSignal{})
